@@ -147,7 +147,25 @@ func entryName(fd protoreflect.FieldDescriptor) string { return string(fd.Name()
 
 // cmpMsg compares the expected entries with the set fields of m; skip names fields that are not part
 // of the value (uninterpreted_option).
-func cmpMsg(exp []Entry, m protoreflect.Message, depth int, at string, skip map[string]bool) *diff {
+// ctx: the compiled files, to find the message type of an expanded Any.
+type ctx struct{ files []protoreflect.FileDescriptor }
+
+func (cx *ctx) message(name string) protoreflect.MessageDescriptor {
+	if cx == nil {
+		return nil
+	}
+	for _, f := range cx.files {
+		if f == nil {
+			continue
+		}
+		if md := f.Messages().ByName(protoreflect.Name(name)); md != nil {
+			return md
+		}
+	}
+	return nil
+}
+
+func cmpMsg(cx *ctx, exp []Entry, m protoreflect.Message, depth int, at string, skip map[string]bool) *diff {
 	if len(m.GetUnknown()) > 0 {
 		return &diff{"unknown", depth, at, fmt.Sprintf("%d undecoded bytes", len(m.GetUnknown()))}
 	}
@@ -175,7 +193,7 @@ func cmpMsg(exp []Entry, m protoreflect.Message, depth int, at string, skip map[
 			return &diff{"missing", depth, at + "." + e.N, "expected " + showVal(&e.V)}
 		}
 		seen[e.N] = true
-		if d := cmpField(&e.V, a.fd, a.v, depth, at+"."+e.N); d != nil {
+		if d := cmpField(cx, &e.V, a.fd, a.v, depth, at+"."+e.N); d != nil {
 			return d
 		}
 	}
@@ -187,7 +205,7 @@ func cmpMsg(exp []Entry, m protoreflect.Message, depth int, at string, skip map[
 	return nil
 }
 
-func cmpField(exp *Val, fd protoreflect.FieldDescriptor, v protoreflect.Value, depth int, at string) *diff {
+func cmpField(cx *ctx, exp *Val, fd protoreflect.FieldDescriptor, v protoreflect.Value, depth int, at string) *diff {
 	switch {
 	case fd.IsMap():
 		if exp.K != "map" {
@@ -216,7 +234,7 @@ func cmpField(exp *Val, fd protoreflect.FieldDescriptor, v protoreflect.Value, d
 			if val == nil {
 				val = &Val{K: "int", S: "0"}
 			}
-			if d := cmpSingle(val, fd.MapValue(), rv, depth, at+"["+key+"]"); d != nil {
+			if d := cmpSingle(cx, val, fd.MapValue(), rv, depth, at+"["+key+"]"); d != nil {
 				return d
 			}
 		}
@@ -230,13 +248,13 @@ func cmpField(exp *Val, fd protoreflect.FieldDescriptor, v protoreflect.Value, d
 			return &diff{"value", depth, at, fmt.Sprintf("expected %d elements, real %d", len(exp.Fs), l.Len())}
 		}
 		for i := range exp.Fs {
-			if d := cmpSingle(&exp.Fs[i].V, fd, l.Get(i), depth, fmt.Sprintf("%s[%d]", at, i)); d != nil {
+			if d := cmpSingle(cx, &exp.Fs[i].V, fd, l.Get(i), depth, fmt.Sprintf("%s[%d]", at, i)); d != nil {
 				return d
 			}
 		}
 		return nil
 	}
-	return cmpSingle(exp, fd, v, depth, at)
+	return cmpSingle(cx, exp, fd, v, depth, at)
 }
 
 func signed(v *Val) string {
@@ -246,7 +264,7 @@ func signed(v *Val) string {
 	return v.S
 }
 
-func cmpSingle(exp *Val, fd protoreflect.FieldDescriptor, v protoreflect.Value, depth int, at string) *diff {
+func cmpSingle(cx *ctx, exp *Val, fd protoreflect.FieldDescriptor, v protoreflect.Value, depth int, at string) *diff {
 	bad := func(real string) *diff {
 		return &diff{"value", depth, at, fmt.Sprintf("expected %s, real %s %s", showVal(exp), fd.Kind(), real)}
 	}
@@ -272,6 +290,17 @@ func cmpSingle(exp *Val, fd protoreflect.FieldDescriptor, v protoreflect.Value, 
 			return bad(strconv.Quote(v.String()))
 		}
 	case protoreflect.BytesKind:
+		if exp.K == "packed" { // the value of an expanded Any: the encoding of a message of type p.<S>
+			md := cx.message(exp.S)
+			if md == nil {
+				return bad("(message type p." + exp.S + " not found in the compiled file)")
+			}
+			dm := dynamicpb.NewMessage(md)
+			if err := (proto.UnmarshalOptions{AllowPartial: true}).Unmarshal(v.Bytes(), dm); err != nil {
+				return bad("undecodable: " + err.Error())
+			}
+			return cmpMsg(cx, exp.Fs, dm, depth+1, at, nil)
+		}
 		if exp.K != "bytes" || exp.S != string(v.Bytes()) {
 			return bad(strconv.Quote(string(v.Bytes())))
 		}
@@ -317,14 +346,14 @@ func cmpSingle(exp *Val, fd protoreflect.FieldDescriptor, v protoreflect.Value, 
 		if exp.K != "msg" {
 			return bad("message")
 		}
-		return cmpMsg(exp.Fs, v.Message(), depth+1, at, nil)
+		return cmpMsg(cx, exp.Fs, v.Message(), depth+1, at, nil)
 	}
 	return nil
 }
 
 func showVal(v *Val) string {
 	switch v.K {
-	case "msg", "lst", "map":
+	case "msg", "lst", "map", "packed":
 		s := v.K + "{"
 		for i := range v.Fs {
 			if i > 0 {
